@@ -178,10 +178,11 @@ def run(ctx: Ctx):
            f"writer: {u(wdur[0]) if wdur else None}; reader: {u(rend[0]) if rend else None}; expected duration = end - "
            f"start and end = start + duration", rel, wr.line)
     # mapping orientation
-    okm = any(isinstance(x, ast.Subscript) and u(x.value) == "utt2wc" and isinstance(x.slice, ast.Name)
-              for n in own_nodes(wr.node) if isinstance(n, ast.Assign) for x in ast.walk(n.value)) and any(
-        u(n.value) == f"wc2utt[{read[0]}, {read[1]}]" or u(n.value) == f"wc2utt[({read[0]}, {read[1]})]"
-        for n in own_nodes(rdc.node) if isinstance(n, ast.Assign))
+    # (wherever the lookups sit: an assignment, a conditional expression, a try block)
+    okm = any(isinstance(x, ast.Subscript) and isinstance(x.ctx, ast.Load) and u(x.value) == "utt2wc" and isinstance(x.slice, ast.Name)
+              for x in own_nodes(wr.node)) and any(
+        isinstance(x, ast.Subscript) and isinstance(x.ctx, ast.Load) and u(x.value) == "wc2utt" and isinstance(x.slice, ast.Tuple)
+        and [u(e_) for e_ in x.slice.elts] == [read[0], read[1]] for x in own_nodes(rdc.node))
     col.ob("G2", "S3", f"{rel}::ctm::utt2wc/wc2utt-orientation", okm,
            "writer must map utt_id -> (wfn, chan) and reader (wfn, chan) -> utt_id", rel, rdc.line)
     # mandated ordering: segments sorted before writing; reader sorts tokens by start
